@@ -15,8 +15,8 @@ import (
 
 func init() {
 	register(Property{ID: "C28", Level: "other", Run: runC28,
-		Technique: "static analysis: crash-site rules (E6) over the call closure of the playback list/get and API recordings handlers inside packages playback, recordstore and api (static calls, closures, goroutines, module-interface dispatch): explicit panics, Must* with non-constant arguments, single-value type assertions, integer divisors without a non-zero guard (one call level), dereference of captured pointer variables before assignment, make lengths that are unsigned subtractions of file-derived sizes without a lower-bound test, slice bounds / indexes computed from file content without a dominating range test (data flow + go/ssa path conditions)",
-		Text:      "Decides, for every function reachable from playback.(*Server).onList/onGet and api.(*API).onRecordingsList/onRecordingsGet/onRecordingDeleteSegment inside packages playback, recordstore and api: P1 no explicit panic; P2 every Must* call has constant arguments or is a tabled, sanitised site; P3 every single-value type assertion is a tabled site whose dynamic type is fixed; P5 every integer / and % has a divisor that is a non-zero constant, is dominated by a non-zero test, is a tabled non-zero field, or is a parameter whose every call-site argument is one of these; P6 every dereference of a captured pointer variable is dominated, inside the closure, by an assignment or a nil test (or the variable is assigned before the closure is created); P7 every make whose length is an unsigned subtraction of a non-constant is dominated by a lower-bound test on the minuend; P9 every slice bound / index that is computed from file content (bytes of a buffer, binary.UintNN, numeric go-mp4/mediacommon box fields, and arithmetic on them) lies within the operand's make length by construction or is dominated by a comparison on the bound, one of its file-derived terms, the operand's len/cap or a file-derived term of its allocation length. Absence of a report is NOT a proof of crash freedom: index arithmetic on values that do not come from the file, the adequacy of the constants in a range check, 32-bit wrap-around, allocation sizes, third-party parsers (go-mp4, mediacommon) and the functions outside the three packages (auth, conf, gin) are outside the rule set.",
+		Technique: "static analysis: crash-site rules (E6) over the call closure of the playback list/get and API recordings handlers inside packages playback, recordstore and api (static calls, closures, goroutines, module-interface dispatch): explicit panics, Must* with non-constant arguments, single-value type assertions, integer divisors without a non-zero guard (one call level), dereference of captured pointer variables before assignment, make lengths that are unsigned subtractions of file-derived sizes without a lower-bound test, slice bounds / indexes computed from file content without a dominating range test (data flow + go/ssa path conditions), first/last position of a list produced elsewhere without a non-emptiness derivation (interprocedural, producer contracts)",
+		Text:      "Decides, for every function reachable from playback.(*Server).onList/onGet and api.(*API).onRecordingsList/onRecordingsGet/onRecordingDeleteSegment inside packages playback, recordstore and api: P1 no explicit panic; P2 every Must* call has constant arguments or is a tabled, sanitised site; P3 every single-value type assertion is a tabled site whose dynamic type is fixed; P5 every integer / and % has a divisor that is a non-zero constant, is dominated by a non-zero test, is a tabled non-zero field, or is a parameter whose every call-site argument is one of these; P6 every dereference of a captured pointer variable is dominated, inside the closure, by an assignment or a nil test (or the variable is assigned before the closure is created); P7 every make whose length is an unsigned subtraction of a non-constant is dominated by a lower-bound test on the minuend; P9 every slice bound / index that is computed from file content (bytes of a buffer, binary.UintNN, numeric go-mp4/mediacommon box fields, and arithmetic on them) lies within the operand's make length by construction or is dominated by a comparison on the bound, one of its file-derived terms, the operand's len/cap or a file-derived term of its allocation length; P10 every first/last-position access (x[0], x[len(x)-1], x[1:], x[len(x)-1:]) to a list that comes from another module function or from a parameter is non-empty-derivable: dominated by a length test, or the producer returns - on every return that can carry a nil error, its error being tested by the consumer - a list that is make([]T, len(non-empty input)), an append of an element, a list it tested itself, or the result of a tabled producer contract (FindSegments: no error => at least one segment; concatenateSegments: non-empty input => non-empty output; both re-checked structurally), so a producer that drops entries (unparseable segments) cannot hand an empty list with a nil error to onList / seekAndMux. Absence of a report is NOT a proof of crash freedom: index arithmetic on values that do not come from the file, the adequacy of the constants in a range check, 32-bit wrap-around, allocation sizes, third-party parsers (go-mp4, mediacommon) and the functions outside the three packages (auth, conf, gin) are outside the rule set.",
 		Note:      "trusted: go/ssa; go-mp4 ReadPayload returns the struct registered for the box type named in the enclosing case; mediacommon fmp4.Init.Unmarshal rejects mdhd.Timescale == 0 (init.go:146), so fmp4.InitTrack.TimeScale is non-zero"})
 	addMutants(
 		Mutant{"C28", "divisor-from-file", "internal/playback/segment_fmp4.go",
@@ -35,6 +35,12 @@ func init() {
 			"	var init fmp4.Init\n	err = init.Unmarshal(bytes.NewReader(buf))\n", "	var mvhd2 amp4.Mvhd\n	_, err = amp4.Unmarshal(bytes.NewReader(buf[ftypSize+16:]), uint64(moovSize-16), &mvhd2, amp4.Context{})\n	if err != nil {\n		return nil, 0, err\n	}\n\n	var init fmp4.Init\n	err = init.Unmarshal(bytes.NewReader(buf))\n", "C28.P9.segmentFMP4ReadHeader"},
 		Mutant{"C28", "track-selected-by-file-index", "internal/playback/segment_fmp4.go",
 			"		track := findInitTrack(init.Tracks, int(tfhd.TrackID))\n", "		track := init.Tracks[tfhd.TrackID-1]\n", "C28.P9.segmentFMP4ReadDurationFromParts"},
+		Mutant{"C28", "unparseable-segments-dropped-silently", "internal/playback/on_list.go",
+			"	return parsed, err\n", "	_ = err\n	valid := parsed[:0]\n	for _, ps := range parsed {\n		if ps != nil {\n			valid = append(valid, ps)\n		}\n	}\n	return valid, nil\n", "C28.P10.onList"},
+		Mutant{"C28", "findsegments-empty-list-without-error", "internal/recordstore/segment.go",
+			"	if segments == nil {\n		return nil, ErrNoSegmentsFound\n	}\n", "", "C28.P10.contract"},
+		Mutant{"C28", "concatenate-skips-zero-duration-segments", "internal/playback/on_list.go",
+			"		if len(out) != 0 && segmentFMP4CanBeConcatenated(", "		if parsed.duration == 0 {\n			continue\n		}\n		if len(out) != 0 && segmentFMP4CanBeConcatenated(", "C28.P10.contract"},
 		Mutant{"C28", "make-underflow-in-header", "internal/playback/segment_fmp4.go",
 			"	buf = make([]byte, uint64(ftypSize+moovSize))", "	buf = make([]byte, uint64(ftypSize+moovSize-16))", "C28.P7.segmentFMP4ReadHeader"},
 	)
@@ -240,6 +246,7 @@ func runC28(c *Ctx) {
 		"C28.P6 dereference of a captured pointer variable before assignment/nil test; C28.P7 make length = unsigned (x - k) without a lower-bound test on x; " +
 		"C28.P8 dereference of the result of a module lookup helper that can return nil (find*) without a nil test. " +
 		"C28.P9 (prop_r3_c28.go) slice bound / index that is file-derived (data flow from byte-buffer elements, binary.ByteOrder.UintNN, integer fields of go-mp4/mediacommon boxes through + - * | ^ << >> / conversions / phis) without a dominating comparison on the bound, its file-derived terms, len/cap of the operand or the file-derived terms of the operand's make length, unless every + term of the bound is a + term of that make length. " +
+		"C28.P10 (prop_r4_c28.go) first/last position of a list produced by another function or received as a parameter: interprocedural non-emptiness derivation over SSA values (phis with edge literals, error-tested call results, returns that can carry a nil error, make(len(input)), append, parameters through the call that was followed or every call site) with two tabled producer contracts re-checked structurally (C28.P10.contract). " +
 		"Not decided: crash freedom in general (index arithmetic, allocation sizes, go-mp4/mediacommon internals, code outside the three packages)."
 	c.Assume = []string{"go-mp4 ReadPayload returns the struct registered for the box type", "mediacommon fmp4.Init.Unmarshal rejects a zero mdhd time scale", "functions outside playback/recordstore/api (auth manager, conf, gin, logger) are covered by C35/C10 or trusted"}
 
@@ -573,6 +580,8 @@ func runC28(c *Ctx) {
 	}
 	// ---- P9: slice / index bounds computed from file content (prop_r3_c28.go)
 	c28FileBounds(c, p, set)
+	// ---- P10: first / last position of a list produced elsewhere (prop_r4_c28.go)
+	c28ListContract(c, p, set)
 	_ = n1
 	c.Count("P1_sites", n1)
 	c.Floor("C28.P2", n2, 1)
